@@ -913,6 +913,7 @@ class NumpyModel(object):
         """arr[idx] := val(idx) where cond(idx); a view forwards the update to its base"""
         if arr.view_of is None:
             old = arr._fn
+            self.I.writes.append(arr)          # the buffer that is really written (views forward to their root)
 
             def fn(*idx, old=old, upd=upd):
                 c, v = upd(*idx)
@@ -1061,7 +1062,11 @@ class NumpyModel(object):
     def m_astype(self, a, dtype, copy=True, **kw):
         dt, bits = self.dtype_of(dtype)
         if copy is not True:
-            raise Unsupported('astype(copy=...)')
+            if copy is False and dt == a.dtype and (bits is None or bits == a.bits):
+                self.ax('ndarray.astype(copy=False) returns the array itself when the dtype already matches')
+                return a
+            if copy is not False:
+                raise Unsupported('astype(copy=%r)' % (copy,))
         self.ax('ndarray.astype: fresh buffer, values converted, same subclass')
         f = a.fn
         out = self.new(a.shape, dt, lambda *idx, f=f: self.cast(f(*idx), a.dtype, dt, bits),
@@ -1421,7 +1426,31 @@ class NumpyModel(object):
                 out = self.new(out.shape, dt, lambda *idx, f=f, od=od: self.cast(f(*idx), od, dt, bits))
             out.bits = bits
             return out
-        T['numpy.asarray'] = T['numpy.array']
+        @reg('asarray')
+        def _asarray(I_, a, k):
+            d = k.get('dtype', a[1] if len(a) > 1 else None)
+            dt, bits = self.dtype_of(d)
+            v = I.force(a[0])
+            if isinstance(v, NDArr) and (dt is None or (dt == v.dtype and (bits is None or bits == v.bits))):
+                self.ax('np.asarray/asanyarray return the argument itself when no conversion is needed')
+                if v.cls == 'FCSData':
+                    return self.m_view(v, self.table['numpy.ndarray'])     # base-class view of the same buffer
+                return v
+            return _array(I_, a, k)
+
+        @reg('asanyarray')
+        def _asanyarray(I_, a, k):
+            d = k.get('dtype', a[1] if len(a) > 1 else None)
+            dt, bits = self.dtype_of(d)
+            v = I.force(a[0])
+            if isinstance(v, NDArr) and (dt is None or (dt == v.dtype and (bits is None or bits == v.bits))):
+                self.ax('np.asarray/asanyarray return the argument itself when no conversion is needed')
+                return v
+            out = _array(I_, a, k)
+            if isinstance(v, NDArr) and v.cls == 'FCSData':
+                out2 = self.m_astype(v, d)
+                return out2
+            return out
 
         @reg('all')
         def _all(I_, a, k):
